@@ -41,6 +41,9 @@ pub enum Edit {
     /// the source goes back to what it was before the previous edit (A -> B -> A): every tree of A
     /// is already stored, but the parent snapshot is B
     Revert,
+    /// two new files with identical new content, far apart in the walk; during this backup the
+    /// shared indexer flushes after every second blob (hook), as it does after 50 000 blobs
+    AddTwins,
     /// only the metadata of directory `d` itself changes (its listing, hence its tree, stays)
     TouchDir,
     /// add a file whose bytes equal the serialised tree of directory `d` (default chunker only)
@@ -165,6 +168,7 @@ impl SeqModel for C07 {
             Edit::MoveDir,
             Edit::AddChunkFile,
             Edit::TouchDir,
+            Edit::AddTwins,
         ];
         if s.prev.is_some() {
             v.push(Edit::Revert);
@@ -217,6 +221,11 @@ impl SeqModel for C07 {
                 if let Some(p) = &s.prev {
                     n.tree = p.clone();
                 }
+            }
+            Edit::AddTwins => {
+                let content = lcg(5000 + s.n as u64, 700);
+                n.tree.insert(&format!("a/twin{}", s.n), Entry::file(content.clone(), mt));
+                n.tree.insert(&format!("zz/twin{}", s.n), Entry::file(content, mt));
             }
             Edit::TouchDir => {
                 if let Some(d) = n.tree.get_mut("d") {
@@ -303,8 +312,12 @@ impl SeqModel for C07 {
         // index files with the pack listing (`to_indexed_ids_checked`): same answers expected
         let repo = if s.n % 2 == 1 { env.open_ids_checked() } else { env.open_ids() }.map_err(|e| ("C07/open".to_string(), e.display_log()))?;
         let label = format!("s{}", s.n);
-        let snap = backup_with(&repo, &MemSource::new("r", n.tree.clone()), &label, T0 + 1000 + s.n as i64, &vkit::rep::bopts())
-            .map_err(|e| ("C07/backup/error".to_string(), e.display_log()))?;
+        if matches!(a, Edit::AddTwins) && std::env::var("C07_NO_FLUSH").is_err() {
+            rustic_core::verif::limits::set_indexer_max_count(2);
+        }
+        let snap = backup_with(&repo, &MemSource::new("r", n.tree.clone()), &label, T0 + 1000 + s.n as i64, &vkit::rep::bopts());
+        rustic_core::verif::limits::set_indexer_max_count(0);
+        let snap = snap.map_err(|e| ("C07/backup/error".to_string(), e.display_log()))?;
         n.store = env.store();
         n.n += 1;
         // ---- what was written: packs that did not exist before
@@ -327,7 +340,22 @@ impl SeqModel for C07 {
         }
         let wd: BTreeSet<String> = written_data.iter().cloned().collect();
         if wd.len() != written_data.len() {
-            return Err(("C07/in-run-duplicate-data".into(), format!("a data blob was written twice in one run ({} written, {} distinct)", written_data.len(), wd.len())));
+            // Timing dependent in the library (a blob whose pack is still in the writer's queue is not
+            // yet known to the packers): recorded where it is seen, without the engine's demand that
+            // a violation re-executes identically - that demand would turn the race into a harness
+            // failure. The exploration goes on from the resulting state.
+            let sig = "C07/in-run-duplicate-data".to_string();
+            if !rep.has_violation(&sig) {
+                rep.violation(
+                    sig,
+                    format!("edit {a:?}: a data blob was written twice in one run ({} written, {} distinct)", written_data.len(), wd.len()),
+                    json!({"scenario": if self.tiny { "tiny" } else { "default-chunker" }, "initial": "multi-chunk", "history": [format!("{a:?}")], "note": "timing dependent; see known_findings.txt"}),
+                );
+            }
+            rep.inc("in_run_duplicates_seen");
+            // the remaining clauses of this step count blobs and would only restate the duplicate
+            n.last_tree_id = Some(snap.tree.to_hex().to_string());
+            return Ok(n);
         }
         if wd != expected_new {
             let extra: Vec<_> = wd.difference(&expected_new).map(|x| x[..8].to_string()).collect();
@@ -439,7 +467,7 @@ pub fn run(args: &Args, rep: &mut Report) {
     let quick = args.quick();
     let depth = if quick { 3 } else { 4 };
     _ = (Bytes::new(), hex_id, open_json, BTreeMap::<u8, u8>::new());
-    rep.set_meta("bounds", json!(format!("BFS depth {depth} (after an initial backup) over 14 edits (incl. reverting the previous edit and touching a directory) from 3 base sources with the tiny rabin chunker (64/64/256), depth {} with the default chunker incl. files equal to a serialised tree", depth - 1)));
+    rep.set_meta("bounds", json!(format!("BFS depth {depth} (after an initial backup) over 15 edits (incl. reverting the previous edit, touching a directory, twin files under a mid-run index flush) from 3 base sources with the tiny rabin chunker (64/64/256), depth {} with the default chunker incl. files equal to a serialised tree", depth - 1)));
     let m = C07 { raw: raw.clone(), tiny: true };
     let m2 = C07 { raw, tiny: false };
     if let Some(p) = &args.replay {
